@@ -241,43 +241,13 @@ func init() {
 		if logFd == nil {
 			x.fail("logger: no Log method with a body")
 		} else {
-			// events by method / callee name only; Get and Put count when the receiver is a package-level sync.Pool
-			var calls []string
-			writeArg := ""
-			deferred := false
-			x.WalkInlined("logger", logFd, func(n ast.Node) bool {
-				switch v := n.(type) {
-				case *ast.DeferStmt, *ast.GoStmt:
-					deferred = true
-				case *ast.CallExpr:
-					sel, ok := v.Fun.(*ast.SelectorExpr)
-					if !ok {
-						return true
-					}
-					switch sel.Sel.Name {
-					case "Get", "Put":
-						if id, ok := sel.X.(*ast.Ident); ok && poolVars[id.Name] {
-							calls = append(calls, "Pool."+sel.Sel.Name)
-						}
-					case "Lock", "Unlock", "Reset", "Bytes", "String":
-						calls = append(calls, sel.Sel.Name)
-					case "write":
-						calls = append(calls, "render")
-					case "Write":
-						calls = append(calls, "Write")
-						// what is handed to the writer: the buffer's bytes taken inside the call, or something older
-						writeArg = "other"
-						if len(v.Args) == 1 {
-							if c, ok := v.Args[0].(*ast.CallExpr); ok {
-								if s, ok := c.Fun.(*ast.SelectorExpr); ok && s.Sel.Name == "Bytes" && len(c.Args) == 0 {
-									writeArg = "Bytes() of a buffer, evaluated in the call"
-								}
-							}
-						}
-					}
-				}
-				return true
-			})
+			// events by method / callee name only; Get and Put count when the receiver is a package-level sync.Pool.
+			// Calls are taken in evaluation order (arguments before the call, then the body of an unexported
+			// same-package callee with its parameters bound to the arguments), so extracting a helper or a method
+			// (getBuffer, emit) leaves the list as it is.
+			lw := &c20LogWalk{x: x, dir: "logger", poolVars: poolVars, evIdx: map[*ast.CallExpr]int{}, stack: map[string]bool{}}
+			lw.walk(logFd, map[string]int{}, 0)
+			calls, writeArg, deferred := lw.calls, lw.writeArg, lw.deferred
 			x.defStrList("logCalls", calls)
 			x.defStr("logWriteArg", writeArg)
 			x.defBool("logUsesDeferOrGo", deferred)
@@ -390,16 +360,64 @@ func init() {
 						if vals["StatusCode"] != nil && vals["ContentLength"] != nil {
 							a, b := root(vals["StatusCode"]), root(vals["ContentLength"])
 							if a != "" && a == b {
-								ast.Inspect(fd.Body, func(k ast.Node) bool {
-									if c, ok := k.(*ast.CallExpr); ok && len(c.Args) >= 1 {
-										if se, ok := c.Fun.(*ast.SelectorExpr); ok && se.Sel.Name == "ServeHTTP" {
-											if id, ok := c.Args[0].(*ast.Ident); ok && id.Name == a {
-												fromWriter = true
+								handedToHandler := func(body ast.Node, name string) bool {
+									hit := false
+									ast.Inspect(body, func(k ast.Node) bool {
+										if c, ok := k.(*ast.CallExpr); ok && len(c.Args) >= 1 {
+											if se, ok := c.Fun.(*ast.SelectorExpr); ok && se.Sel.Name == "ServeHTTP" {
+												if id, ok := c.Args[0].(*ast.Ident); ok && id.Name == name {
+													hit = true
+												}
+											}
+										}
+										return true
+									})
+									return hit
+								}
+								fromWriter = handedToHandler(fd.Body, a)
+								// the literal sits in an unexported helper and the writer is one of its parameters: the
+								// argument at the helper's (only) call sites must be the writer handed to the handler there
+								if !fromWriter && !ast.IsExported(fd.Name.Name) {
+									idx := -1
+									for i, pn := range c20ParamNames(fd.Type) {
+										if pn == a {
+											idx = i
+										}
+									}
+									sites, good := 0, 0
+									if idx >= 0 {
+										for _, f2 := range x.files("proxy") {
+											for _, d2 := range f2.Decls {
+												caller, ok := d2.(*ast.FuncDecl)
+												if !ok || caller.Body == nil {
+													continue
+												}
+												ast.Inspect(caller.Body, func(k ast.Node) bool {
+													c, ok := k.(*ast.CallExpr)
+													if !ok || idx >= len(c.Args) {
+														return true
+													}
+													nm := ""
+													switch fn := c.Fun.(type) {
+													case *ast.Ident:
+														nm = fn.Name
+													case *ast.SelectorExpr:
+														nm = fn.Sel.Name
+													}
+													if nm != fd.Name.Name {
+														return true
+													}
+													sites++
+													if id, ok := c.Args[idx].(*ast.Ident); ok && handedToHandler(caller.Body, id.Name) {
+														good++
+													}
+													return true
+												})
 											}
 										}
 									}
-									return true
-								})
+									fromWriter = sites > 0 && sites == good
+								}
 							}
 						}
 					}
@@ -1370,4 +1388,141 @@ func c20FirstStrArg(x *X, fd *ast.FuncDecl) string {
 		return true
 	})
 	return out
+}
+
+// c20LogWalk lists the events of Logger.Log in evaluation order, following unexported same-package callees with
+// their parameters bound to the arguments. For the Write event it decides what is handed to the writer: the result
+// of a `Bytes()` call — written in place, or reaching the call through locals / parameters that were bound to it —
+// with no event in between that could change or give away the buffer (Reset, render, Pool.Put, Pool.Get).
+type c20LogWalk struct {
+	x        *X
+	dir      string
+	poolVars map[string]bool
+	calls    []string
+	evIdx    map[*ast.CallExpr]int // Bytes() call -> index of its event
+	writeArg string
+	deferred bool
+	stack    map[string]bool
+}
+
+func (w *c20LogWalk) walk(fd *ast.FuncDecl, env map[string]int, depth int) {
+	if fd == nil || fd.Body == nil || w.stack[fd.Name.Name] || depth > 4 {
+		return
+	}
+	w.stack[fd.Name.Name] = true
+	defer delete(w.stack, fd.Name.Name)
+	var stack []ast.Node
+	ast.Inspect(fd.Body, func(n ast.Node) bool {
+		if n != nil {
+			switch n.(type) {
+			case *ast.DeferStmt, *ast.GoStmt:
+				w.deferred = true
+			case *ast.FuncLit:
+				w.deferred = true // a closure: when it runs is not known here
+			}
+			stack = append(stack, n)
+			return true
+		}
+		top := stack[len(stack)-1]
+		stack = stack[:len(stack)-1]
+		switch v := top.(type) {
+		case *ast.AssignStmt: // line := b.Bytes()  /  line = other
+			if len(v.Lhs) == len(v.Rhs) {
+				for i, l := range v.Lhs {
+					if id, ok := l.(*ast.Ident); ok {
+						if k, ok := w.bytesOf(v.Rhs[i], env); ok {
+							env[id.Name] = k
+						} else {
+							delete(env, id.Name)
+						}
+					}
+				}
+			}
+		case *ast.CallExpr: // its arguments have been visited
+			w.call(v, env, depth)
+		}
+		return true
+	})
+}
+
+// bytesOf: is e the result of a Bytes() call (in place, or through a bound name)? Which event?
+func (w *c20LogWalk) bytesOf(e ast.Expr, env map[string]int) (int, bool) {
+	switch v := e.(type) {
+	case *ast.ParenExpr:
+		return w.bytesOf(v.X, env)
+	case *ast.CallExpr:
+		k, ok := w.evIdx[v]
+		return k, ok
+	case *ast.Ident:
+		k, ok := env[v.Name]
+		return k, ok
+	}
+	return 0, false
+}
+
+func (w *c20LogWalk) call(v *ast.CallExpr, env map[string]int, depth int) {
+	name := ""
+	var recv ast.Expr
+	switch f := v.Fun.(type) {
+	case *ast.Ident:
+		name = f.Name
+	case *ast.SelectorExpr:
+		name, recv = f.Sel.Name, f.X
+	}
+	if recv != nil {
+		switch name {
+		case "Get", "Put":
+			if id, ok := recv.(*ast.Ident); ok && w.poolVars[id.Name] {
+				w.calls = append(w.calls, "Pool."+name)
+			}
+		case "Lock", "Unlock", "Reset", "String":
+			w.calls = append(w.calls, name)
+		case "Bytes":
+			if len(v.Args) == 0 {
+				w.evIdx[v] = len(w.calls)
+			}
+			w.calls = append(w.calls, name)
+		case "write":
+			w.calls = append(w.calls, "render")
+		case "Write":
+			w.writeArg = "other"
+			if len(v.Args) == 1 {
+				if k, ok := w.bytesOf(v.Args[0], env); ok {
+					clean := true
+					for _, ev := range w.calls[k+1:] {
+						if ev == "Reset" || ev == "render" || ev == "Pool.Put" || ev == "Pool.Get" {
+							clean = false
+						}
+					}
+					if clean {
+						w.writeArg = "Bytes() of a buffer, untouched until the Write"
+					}
+				}
+			}
+			w.calls = append(w.calls, "Write")
+		}
+	}
+	if name == "" || ast.IsExported(name) {
+		return
+	}
+	callee := w.x.anyFuncDecl(w.dir, name)
+	if callee == nil {
+		return
+	}
+	// bind the callee's parameters to what the arguments stand for
+	inner := map[string]int{}
+	j := 0
+	if callee.Type.Params != nil {
+		for _, p := range callee.Type.Params.List {
+			for _, pn := range p.Names {
+				if j < len(v.Args) {
+					if k, ok := w.bytesOf(v.Args[j], env); ok {
+						inner[pn.Name] = k
+					}
+				}
+				j++
+			}
+		}
+	}
+	w.walk(callee, inner, depth+1)
 }
